@@ -168,7 +168,7 @@ func c14Check(w *c14World, err error, escaped bool, outcome int) {
 	}
 }
 
-//verif:entry tier=quick,thorough cover=beginFailed,commitFailed,rollbackFailed,panicked
+//verif:entry native tier=quick,thorough cover=beginFailed,commitFailed,rollbackFailed,panicked
 //verif:doc body of 0..3 statements; fault flags (begin/commit/rollback fail, statement j fails, body returns error or panics with an error or a string after j statements) all symbolic.
 func Verif_C14_TransactOnConn() {
 	w, b, body, outcome, _ := c14Scenario()
@@ -198,7 +198,7 @@ func (b *c14Breaker) DoWithAcceptableCtx(ctx context.Context, req func() error, 
 	return err
 }
 
-//verif:entry tier=quick,thorough cover=beginFailed,commitFailed,rollbackFailed,panicked
+//verif:entry native tier=quick,thorough cover=beginFailed,commitFailed,rollbackFailed,panicked
 //verif:doc same fault space driven through commonSqlConn.TransactCtx (connection provider fault added; breaker replaced by a pass-through that records the acceptability verdict).
 func Verif_C14_TransactCtx() {
 	w, b, body, outcome, _ := c14Scenario()
